@@ -61,6 +61,28 @@ def pyEq : Val → Val → Bool
   | .lst a, .lst b => pyEq a b
   | .sentinel, .sentinel => true
   | _, _ => false
+
+/-- `type(a) is type(b)` on the value universe: the same TOP-LEVEL Python type (`NoneType`, `bool`,
+`int`, `str`, `tuple`, `list`, the sentinel's `object`); the items of a tuple / list are not looked
+at (`[1]` and `[True]` are both lists).  `bool` and `int` are DIFFERENT types here although
+`True == 1` (`pyEq`).  The spine constructors `nil` / `cons` never occur as the top-level value of
+a run state; a spine has the type of a spine of the same shape (which keeps the relation
+reflexive and symmetric). -/
+def sameType : Val → Val → Bool
+  | .none, .none => true
+  | .bool _, .bool _ => true
+  | .int _, .int _ => true
+  | .str _, .str _ => true
+  | .nil, .nil => true
+  | .cons _ _, .cons _ _ => true
+  | .tup _, .tup _ => true
+  | .lst _, .lst _ => true
+  | .sentinel, .sentinel => true
+  | _, _ => false
+
+/-- `update_value`'s `changed = type(old) is not type(new) or bool(old != new)`: a value of another
+(top-level) type always counts as a change; within one type Python's `!=` decides -/
+def changed (old new : Val) : Bool := !(sameType old new) || !(pyEq old new)
 end Val
 
 /-- insertion-ordered association list = Python dict -/
